@@ -833,17 +833,17 @@ class VMF:
             worldspawn.solids = []
         map_obj.brushes = worldspawn.solids
 
-        for ent in tree.find_all('Entity'):
-            map_obj.add_ent(
-                Entity.parse(map_obj, ent, False)  # hidden=False
-            )
-
-        # find hidden entities
-        for hidden_ent in tree.find_all('hidden'):
-            for ent in hidden_ent:
+        # Visible and hidden entities are interleaved in the file, keep that order.
+        for ent in tree:
+            if ent.name == 'entity':
                 map_obj.add_ent(
-                    Entity.parse(map_obj, ent, True)  # hidden=True
+                    Entity.parse(map_obj, ent, False)  # hidden=False
                 )
+            elif ent.name == 'hidden':
+                for hidden_ent in ent:
+                    map_obj.add_ent(
+                        Entity.parse(map_obj, hidden_ent, True)  # hidden=True
+                    )
 
         return map_obj
 
